@@ -302,6 +302,26 @@ func c15ContainsLaw(c *Case) {
 			}
 		}
 	}
+	// a method acts on the array it was invoked on - the value its receiver expression had when the method was looked up -
+	// also when an argument of the same call stores into that very location (results computed by hand)
+	for _, t := range []struct{ prog, want string }{
+		{"BEGIN { a = [1, 2, 3]; b = a; a.push(a = [7]); print a, b }", "[7] [1, 2, 3, [7]]\n"},
+		{"BEGIN { c = [[1], [2]]; d = c[0]; c[0].push(c[0] = [9]); print c, d }", "[[9], [2]] [1, [9]]\n"},
+		{"BEGIN { a = [1, 2, 3]; print a.length(a = []), a }", "3 []\n"},
+		{"BEGIN { o = {k: [4, 5, 6]}; old = o.k; print o.k.contains((o.k = [5]).length() + 4), o.k, old }", "true [5] [4, 5, 6]\n"},
+		{"BEGIN { a = [3, 1, 2]; b = a; s = a.sort(a = [9, 8]); print s, a, b }", "[1, 2, 3] [9, 8] [3, 1, 2]\n"},
+		{"{ keep = $.xs; $.xs.push($.xs = [0]); print $.xs, keep }", "[0] [1, 2, [0]]\n"},
+		{"BEGIN { a = [1, 2]; b = a; a.push(a.push(3).length() + (a = ['new']).length()); print a, b }", "[\"new\"] [1, 2, 3, 4]\n"},
+	} {
+		lib := RunLib(t.prog, []InFile{{Name: "in.json", Data: []byte(`{"xs": [1, 2]}`)}}, nil, RunOpts{Budget: 100000})
+		c.NonTrivial("receiver-at-lookup:" + t.prog)
+		c.Count("receiver_reassigned_in_an_argument_programs")
+		if lib.Class == "ok" && string(lib.Stdout) == t.want {
+			c.Held()
+		} else {
+			c.Violation(fmt.Sprintf("a call whose argument stores into the receiver's location: want %q, got %s (%s) %q | %s", t.want, lib.Class, lib.Msg, clip(string(lib.Stdout), 80), t.prog), nil, map[string]any{"program": t.prog})
+		}
+	}
 	// an index past the end is past the end however large it is: whatever a read or a store at 2^62 does (null,
 	// or a refusal), the same happens at 2^63, 2^64 and 1e23; and likewise before the start
 	for _, base := range []string{"[]", "[1, 2, 3]", "$.rows", "$.rows[4]"} {
